@@ -147,6 +147,7 @@ var checks = []Check{
 		Assumptions: engineAssumptions,
 		Jobs: []Job{
 			{Pkg: "proc/redis", Scenarios: []string{"C01/fragments"}, Shards: 16, QuickS: 70, ThoroughS: 600},
+			{Pkg: "proc/redis", Scenarios: []string{"C02/client"}, Shards: 16, QuickS: 80, ThoroughS: 600},
 			{Pkg: "proc/redis", Scenarios: []string{"C02/stack-race"}, Race: true, Shards: 1, QuickS: 120, ThoroughS: 600},
 			{Pkg: "proc/redis", Scenarios: []string{"C02/split-race"}, Race: true, Shards: 1, QuickS: 60, ThoroughS: 300},
 			{Pkg: "proc/redis", Scenarios: []string{"C01/schedules"}, Shards: 16, QuickS: 70, ThoroughS: 600},
